@@ -390,6 +390,10 @@ func (g *G) callStmt(c *gctx) *N {
 	case "pair":
 		return &N{K: "let", Ps: []string{g.name(), g.name()}, Ns: []*N{call}}
 	}
+	if g.chance(50) {
+		// a function that returns nothing yields nil: observe it
+		return &N{K: "expr", Ns: []*N{P1(g.id(), call)}}
+	}
 	return &N{K: "expr", Ns: []*N{call}}
 }
 
